@@ -233,6 +233,56 @@ Theorem nstep_window_refills_every_turn : forall c m j,
 Proof. exact adds_turn_start_lemma. Qed.
 Print Assumptions nstep_window_refills_every_turn.
 
+(* ---- calling a training function again: the stop rule, the counters and the histories are state ---- *)
+
+(* Budget already met when the function is called (e.g. on the population a previous call returned, with the same
+   max_steps): zero generations, the state comes back unchanged. *)
+Theorem budget_already_met_runs_nothing : forall c st inp fuel g,
+  guard c (pop st) = false -> run fuel c st inp g = Some (st, g).
+Proof. exact budget_already_met_lemma. Qed.
+Print Assumptions budget_already_met_runs_nothing.
+
+(* Uniform loops from ARBITRARY equal counters s0 (0 for a fresh population, whatever a previous call left otherwise)
+   and an arbitrary memory / history: exactly the first G generations with budget_used (s0 + G*S) >= max_steps, where
+   budget_used is the counter itself, or tour_pop times it for the population-summed budget of the multi-agent
+   on-policy loop. The budget counts the agents' counters, not the steps of this call. *)
+Theorem terminates_at_from : forall c S0 s0 inp st,
+  target c = None -> 0 < S0 -> 1 <= tour_pop c -> length (pop st) = tour_pop c ->
+  Forall (fun a => cur a = s0) (pop st) ->
+  stream_ok (hp_steps c S0) (tour_pop c) inp ->
+  exists st' G, run (max_steps c + 1) c st inp 0 = Some (st', G) /\
+                Forall (fun a => cur a = s0 + G * S0) (pop st') /\
+                max_steps c <= budget_used c (s0 + G * S0) /\
+                (G = 0 \/ budget_used c (s0 + (G - 1) * S0) < max_steps c).
+Proof. exact terminates_at_from_lemma. Qed.
+Print Assumptions terminates_at_from.
+
+(* the accounting clauses from an arbitrary initial state (population with history, in any index order; filled memory) *)
+Theorem steps_equal_env_steps_from : forall c inp fuel st st' G,
+  lp c <> Offline -> 1 <= tour_pop c -> length (pop st) = tour_pop c ->
+  (forall g, parents_ok (tour_pop c) (g_parents (inp g))) ->
+  Forall (fun a => cur a = taken a) (pop st) ->
+  run fuel c st inp 0 = Some (st', G) ->
+  Forall (fun a => cur a = taken a) (pop st').
+Proof. exact steps_equal_env_steps_from_lemma. Qed.
+Print Assumptions steps_equal_env_steps_from.
+
+Theorem one_fitness_per_generation_from : forall c inp fuel st st' G f0 s0,
+  1 <= tour_pop c -> length (pop st) = tour_pop c ->
+  (forall g, parents_ok (tour_pop c) (g_parents (inp g))) ->
+  Forall (fun a => length (fit a) = f0 /\ length (stp a) = S s0) (pop st) ->
+  run fuel c st inp 0 = Some (st', G) ->
+  Forall (fun a => length (fit a) = f0 + G /\ length (stp a) = S (s0 + G)) (pop st').
+Proof. exact one_fitness_per_generation_from_lemma. Qed.
+Print Assumptions one_fitness_per_generation_from.
+
+Theorem pop_size_and_indices_from : forall c inp fuel st st' G,
+  1 <= tour_pop c -> length (pop st) = tour_pop c -> NoDup (map idx (pop st)) ->
+  run fuel c st inp 0 = Some (st', G) ->
+  length (pop st') = length (pop st) /\ NoDup (map idx (pop st')).
+Proof. exact pop_size_and_indices_from_lemma. Qed.
+Print Assumptions pop_size_and_indices_from.
+
 (* ---- non-vacuity: concrete runs of the model ---- *)
 Definition cfg_off : cfg :=
   {| lp := Off; num_envs := 2; evo_steps := 9; max_steps := 20; episode_steps := 0; delay := 0; mem_cap := 16;
@@ -307,3 +357,29 @@ Example early_stop_example :
                (fun _ => {| g_hps := [{| ls := 1; bs := 4 |}; {| ls := 1; bs := 4 |}]; g_fit := [1; 1]%Q; g_parents := [] |}) 0
              = Some (st, 99) /\ map cur (pop st) = [99; 99].
 Proof. eexists. vm_compute. repeat split. Qed.
+
+(* the coordinator's demo: IPPO-like loop, 2 individuals, 8 steps per generation, summed budget. First call, budget 32 ->
+   2 generations, counters 16; second call on the returned population, budget 48 -> ONE generation (32 + 16 >= 48);
+   third call, budget 40 already met -> zero generations *)
+Definition cfg_resume (mx : nat) : cfg :=
+  {| lp := MAOn; num_envs := 2; evo_steps := 8; max_steps := mx; episode_steps := 0; delay := 0; mem_cap := 0;
+     nstep := 0; checkpoint := 0; evolve := false; elitism := true; tour_pop := 2; eval_loop := 1; target := None |}.
+Definition inp_resume (_ : nat) : ginput :=
+  {| g_hps := [{| ls := 4; bs := 4 |}; {| ls := 4; bs := 4 |}]; g_fit := [0; 0]%Q; g_parents := [] |}.
+Example resume_example :
+  exists st1 st2,
+    run 40 (cfg_resume 32) (init_state [fresh_agent 0; fresh_agent 1]) inp_resume 0 = Some (st1, 2) /\
+    map cur (pop st1) = [16; 16] /\
+    run 60 (cfg_resume 48) (init_state_from (pop st1) 0) inp_resume 0 = Some (st2, 1) /\
+    map cur (pop st2) = [24; 24] /\ map (fun a => length (fit a)) (pop st2) = [3; 3] /\
+    run 60 (cfg_resume 40) (init_state_from (pop st2) 0) inp_resume 0 = Some (init_state_from (pop st2) 0, 0).
+Proof. eexists. eexists. vm_compute. repeat split. Qed.
+
+(* a population handed over in permuted index order [1;3;0;2] with elitism: the new indices start above the maximum
+   over the WHOLE population (3), whatever the last member's index is *)
+Example permuted_indices_example :
+  let c := {| lp := Off; num_envs := 2; evo_steps := 8; max_steps := 8; episode_steps := 0; delay := 0; mem_cap := 16;
+              nstep := 0; checkpoint := 0; evolve := true; elitism := true; tour_pop := 4; eval_loop := 1; target := None |} in
+  map idx (pop (fst (gen c (init_state [fresh_agent 1; fresh_agent 3; fresh_agent 0; fresh_agent 2])
+                     {| g_hps := []; g_fit := [0; 1; 0; 0]%Q; g_parents := [1; 0; 2; 3] |}))) = [3; 4; 5; 6].
+Proof. vm_compute. reflexivity. Qed.
